@@ -42,6 +42,20 @@ impl Uri {
         self.example = None;
     }
 
+    /// Returns a variable of the path whose name is already used by an earlier variable, if any.
+    pub fn duplicate_variable(&self) -> Option<&Property> {
+        let mut names = Vec::new();
+        for s in self.path.iter() {
+            if let UriSegment::Variable(p) = s {
+                if names.contains(&&p.name) {
+                    return Some(p);
+                }
+                names.push(&p.name);
+            }
+        }
+        None
+    }
+
     pub fn pattern(&self) -> String {
         self.pattern_with(|p| format!("{{{}}}", p.name))
     }
